@@ -124,7 +124,7 @@ func runC03(c *Ctx) {
 				"the error of this stream read is never tested or returned (discarded, or assigned to a shadowed variable that goes out of scope): a strict prefix of a valid encoding decodes to a zero/short value with err == nil")
 		}
 	}
-	c.CheckAt("read-error-consumed", "scanned", pkgUtil, nErr >= 60, fmt.Sprintf("%d error-returning stream reads in package util, each consumed", nErr))
+	c.CheckAt("read-error-consumed", "scanned", pkgUtil, nErr >= 40, fmt.Sprintf("%d error-returning stream reads in package util, each consumed", nErr))
 
 	// ---- (2) pair agreement
 	vt, err := evalVersionTable(c.P)
